@@ -10,6 +10,7 @@ import (
 
 	"github.com/spq/pkappa2/internal/index/manager"
 	"github.com/spq/pkappa2/verif/oracle"
+	"github.com/spq/pkappa2/internal/query"
 	"github.com/spq/pkappa2/verif/sim"
 	"github.com/spq/pkappa2/verif/simrt"
 )
@@ -53,6 +54,8 @@ type oracles struct {
 	everCached map[string]bool // conv/stream had output at some step
 
 	attachedAfter map[int]map[string]bool // step -> converters attached to some tag after that step
+	apiLogStart   int
+	apiLogLines   map[int]bool // lines of the converter invocation log written during API calls
 
 	convLogSeen int
 
@@ -313,6 +316,12 @@ func (o *oracles) negatable(name string) bool {
 		if d > 8 || strings.Contains(def, "protocol") || strings.Contains(def, "@") {
 			return false
 		}
+		// negating a definition means multiplying out one factor per alternative
+		// of its disjunctive form: with eight alternatives that takes more than
+		// half a minute (DESIGN §8.4)
+		if q, err := query.Parse(def); err != nil || len(q.Conditions) > 4 {
+			return false
+		}
 		for _, r := range defRefs(def) {
 			if !closure(r, d+1) {
 				return false
@@ -323,9 +332,27 @@ func (o *oracles) negatable(name string) bool {
 	return closure(name, 0) && inlineWeight(defs, name, 0) <= 3 && strings.Count(defs[name], "data") <= 1
 }
 
-func (o *oracles) beforeAPI(op Op) {}
+func (o *oracles) beforeAPI(op Op) {
+	if o.convJobActive && o.on("C16") {
+		o.apiLogStart = len(o.vconvLog())
+	} else {
+		o.apiLogStart = -1
+	}
+}
 
 func (o *oracles) afterAPI(op Op, r OpResult) {
+	if o.apiLogStart >= 0 {
+		// converter invocations made by an API call (on-demand conversion, whether
+		// it succeeded or not) while a converter job is parked between two rounds
+		// are not the job's
+		if o.apiLogLines == nil {
+			o.apiLogLines = map[int]bool{}
+		}
+		for i, n := o.apiLogStart, len(o.vconvLog()); i < n; i++ {
+			o.apiLogLines[i] = true
+		}
+		o.apiLogStart = -1
+	}
 	if o.s.plan.NoOracle {
 		return
 	}
@@ -424,7 +451,11 @@ func (o *oracles) afterBody(j *jobRec) {
 		// that were attached to some tag when the job was started
 		lines := o.vconvLog()
 		att, known := o.attachedAfter[j.spawnStep]
-		for _, l := range lines[min(o.convLogSeen, len(lines)):] {
+		for li := min(o.convLogSeen, len(lines)); li < len(lines); li++ {
+			l := lines[li]
+			if o.apiLogLines[li] {
+				continue
+			}
 			name, rest, _ := strings.Cut(l, " ")
 			sid, _, _ := strings.Cut(rest, " ")
 			// re-converting a stream whose earlier output an import invalidated is
